@@ -4,11 +4,13 @@ package state
 // and values written, flushed and cleared read back correctly.
 
 import (
+	"bytes"
 	"math/big"
 
 	"github.com/dappledger/AnnChain/eth/common"
 	"github.com/dappledger/AnnChain/eth/core/types"
 	"github.com/dappledger/AnnChain/eth/ethdb"
+	"github.com/dappledger/AnnChain/eth/rlp"
 )
 
 func vNewState() *StateDB {
@@ -127,4 +129,40 @@ func VerifHarness_C11_storage_flush() {
 	vAssert(st.GetState(ad, vKey(0)) == v1, "S4-rewrite-visible")
 	st.IntermediateRoot(false)
 	vAssert(st.GetState(ad, vKey(0)) == v1 && st.GetCommittedState(ad, vKey(0)) == v1, "S4-rewrite-survives-flush")
+}
+
+// S5: changes made BEFORE a snapshot survive a revert to it all the way into the account trie:
+// after [mutations; snapshot; mutations of possibly the same accounts; revert; flush] the trie
+// entry of every account is exactly the encoding of the live account (absent accounts have none).
+func VerifHarness_C11_flush_after_revert() {
+	st := vNewState()
+	nPre := vNondetLen("pre", 1, vParam("PRE", 2))
+	for i := 0; i < nPre; i++ {
+		vMutate(st, "pre")
+	}
+	snap := st.Snapshot()
+	vMutate(st, "m1")
+	if vParam("TWO", 0) == 1 && vNondetBool("two-after") {
+		vMutate(st, "m2")
+	}
+	st.RevertToSnapshot(snap)
+	before := vObserveState(st)
+	st.IntermediateRoot(false)
+	vReach("flushed")
+	// (the trie is inspected before anything else is read: reads fill caches inside the live objects)
+	for a := 0; a < 2; a++ {
+		ad := vAddr(a)
+		obj := st.getStateObject(ad)
+		enc, _ := st.trie.TryGet(ad[:])
+		if obj == nil {
+			vAssert(len(enc) == 0, "S5-absent-account-has-no-trie-entry")
+		} else {
+			vReach("account-in-trie")
+			want, err := rlp.EncodeToBytes(obj)
+			vAssert(err == nil && bytes.Equal(enc, want), "S5-trie-holds-the-live-account-after-revert-and-flush")
+		}
+	}
+	after := vObserveState(st)
+	vAssert(after.nonce == before.nonce && after.balance == before.balance && after.slot == before.slot && after.exist == before.exist,
+		"S5-flush-does-not-change-what-is-read")
 }
